@@ -28,6 +28,7 @@ Hook(p) == CASE pc[p] \in {"gu", "u1", "m1"} -> "start"
              [] pc[p] = "gs"   -> "resolved"
              [] pc[p] = "miss" -> "miss"
              [] pc[p] = "fail" -> "failed"
+             [] pc[p] = "cc"   -> "closing"
              [] pc[p] = "cu"   -> "unlocked"
              [] pc[p] = "t2"   -> "queued"
              [] pc[p] = "t3"   -> "closed"
